@@ -123,9 +123,9 @@ impl<'a> PrettyPrinter<'a> {
             if let Some(math) = node.cast::<Math>() {
                 FlowItem::tight(self.convert_math(ctx, math))
             } else if node.kind() == SyntaxKind::Space {
-                // We can not arbitrarily break line here, as it may become ugly.
+                // A line break next to a comment stays a line break, as everywhere else in math.
                 FlowItem::tight(if node.text().has_linebreak() {
-                    self.arena.line()
+                    self.arena.hardline()
                 } else {
                     self.arena.space()
                 })
